@@ -187,6 +187,14 @@ func init() {
 	intrinsics["os.LookupEnv"] = func(fr *frame, args []value) value { return tuple{"", false} }
 	intrinsics["syscall.Getenv"] = func(fr *frame, args []value) value { return tuple{"", false} }
 	intrinsics["os.Getpid"] = func(fr *frame, args []value) value { return int(4242) }
+	// GODEBUG settings: none set (the real lookup goes through sync.Map's hash trie and abi type words)
+	intrinsics["(*internal/godebug.Setting).Value"] = func(fr *frame, args []value) value { return "" }
+	intrinsics["(*internal/godebug.Setting).IncNonDefault"] = func(fr *frame, args []value) value { return nil }
+	intrinsics["math/rand.Seed"] = func(fr *frame, args []value) value { return nil }
+	// the global pseudo-random source is abstracted to its first admissible answer
+	intrinsics["math/rand.Intn"] = func(fr *frame, args []value) value { return int(0) }
+	intrinsics["math/rand.Int31n"] = func(fr *frame, args []value) value { return int32(0) }
+	intrinsics["math/rand.Int63n"] = func(fr *frame, args []value) value { return int64(0) }
 	intrinsics["runtime.Callers"] = func(fr *frame, args []value) value { return int(0) }
 	intrinsics["runtime.Caller"] = func(fr *frame, args []value) value { return tuple{uintptr(0), "", int(0), false} }
 	intrinsics["runtime/debug.ReadBuildInfo"] = func(fr *frame, args []value) value { return tuple{(*value)(nil), false} }
